@@ -303,6 +303,10 @@ def level2(tier, seed=0, coarse=False):
                 seqs.append((sp, c))
                 if c in mid:
                     seqs.append((c, sp))
+            if c in last:
+                # an unlimited tail inside a more strictly aligned parent
+                seqs.append((('plain', 'u64'), c))
+                seqs.append((('plain', 'u32'), c))
             if tier == 'thorough':
                 for a in SPACERS:
                     for b in SPACERS:
